@@ -378,6 +378,19 @@ def main():
                     pass
             diag = " || diagnosis: " + re.sub(r"\s+", " ", dout)[:1500]
         broken.append(("proof", "props/%s.vo does not build: %s%s" % (pid, err, diag)))
+    # ---- thorough tier: Coq's independent checker re-checks the compiled property module and everything it
+    # depends on (kernel re-check incl. the vm_compute certificates), and reports the axioms of the whole closure
+    coqchk = {"ran": False}
+    if proof_ok and thms and tier == "thorough" and not replay_file and os.environ.get("VERIF_NO_COQCHK") is None:
+        tc0 = time.time()
+        rcc, cout = sh(["coqchk", "-silent", "-o", "-Q", os.path.join(COQ, "theories"), "Scrapli", "-Q",
+                        os.path.join(COQ, "props"), "ScrapliProps", "ScrapliProps." + pid], cwd=COQ, timeout=3500)
+        m = re.search(r"\* Axioms:(.*?)\n\s*\n\* ", cout, flags=re.S)
+        coqchk = {"ran": True, "rc": rcc, "seconds": round(time.time() - tc0, 1),
+                  "axioms": re.sub(r"\s+", " ", m.group(1)).strip() if m else "?",
+                  "summary": re.sub(r"\s+", " ", cout[-600:]).strip()}
+        if rcc != 0:
+            broken.append(("coqchk", "the independent checker rejects the compiled development: " + coqchk["summary"][-400:]))
     bad_words = forbidden_scan()
     if bad_words:
         broken.append(("forbidden-construct", "; ".join(bad_words[:10])))
@@ -575,6 +588,7 @@ def main():
             "disagreements_checked": len(model_cases),
             "oracle_failures": len(oracle_fail), "known_finding_hits": {s: k["what"] for s, (k, _) in known_hits.items()},
             "kernel_reevaluated": kx_n, "kernel_agree": kx_ok,
+            "coqchk": coqchk,
             "rx_strings_checked": rx_cases, "rx_disagreements": rx_bad,
             "timing_sensitive_failures_rerun_in_isolation": retimed, "of_which_passed_when_run_alone": retimed_cleared,
             "pure_function_inputs_checked": pf_cases, "pure_function_disagreements": pf_bad,
